@@ -24,7 +24,62 @@ def make_model(kind: str, p: dict):
         return M.Elastic.Isotropic(p["dim"], E=p["E"], v=p["v"], planeStress=p["planeStress"], thickness=p["thickness"])
     if kind == "thermal":
         return M.Thermal(p["k"], p["c"], p["thickness"])
+    if kind == "pf":
+        mat = M.Elastic.Isotropic(p["dim"], E=p["E"], v=p["v"], planeStress=p["planeStress"], thickness=p["thickness"])
+        return M.PhaseField(mat, p["split"], p["regularization"], Gc=p["Gc"], l0=p["l0"], solver=p["solver"])
+    if kind == "neohook":
+        m = M.HyperElastic.NeoHookean(p["dim"], K=p["K"], thickness=p["thickness"])
+        m.eta = p.get("eta", 0.0)
+        return m
+    if kind == "svk":
+        m = M.HyperElastic.SaintVenantKirchhoff(p["dim"], lmbda=p["lmbda"], mu=p["mu"], thickness=p["thickness"])
+        m.eta = p.get("eta", 0.0)
+        return m
+    if kind == "behavior":
+        el = M.Elastic.Isotropic(3, E=p["E"], v=p["v"])
+        ys = M.InElastic.Yield.VonMises(p["sigma_y"]) if p.get("sigma_y") else None
+        hd = M.InElastic.IsotropicHardening.Linear(p["H"]) if p.get("sigma_y") else None
+        return M.InElastic.Behavior(p["dim"], el, yieldSurface=ys, hardening=hd, thickness=p["thickness"], planeStress=p["planeStress"])
+    if kind in ("wf_scalar", "wf_vector"):
+        raise KeyError("weak-form models are bound to a mesh: use make_weakforms(mesh, params)")
     raise KeyError(kind)
+
+
+# weak forms: module-level functions so that a saved simulation can be unpickled
+def _wf_k_scalar(u, v):
+    return u.grad.dot(v.grad)
+
+
+def _wf_m_scalar(u, v):
+    return u * v if False else u.dot(v)
+
+
+def _wf_k_vector(u, v):
+    from EasyFEA.FEM import Sym_Grad, Trace
+    import numpy as _np
+
+    Eps = Sym_Grad(u)
+    d = Eps.shape[-1]
+    Sig = 2 * 1.0 * Eps + 0.5 * Trace(Eps) * _np.eye(d)
+    return Sig.ddot(Sym_Grad(v))
+
+
+def _wf_m_vector(u, v):
+    return u.dot(v)
+
+
+def make_weakforms(mesh, p: dict):
+    """Weak-form model on the main group of `mesh` (the Field is bound to that group by construction)."""
+    M = _models()
+    from EasyFEA.FEM import Field, BiLinearForm
+
+    dof_n = p["dof_n"]
+    field = Field(mesh.groupElem, dof_n)
+    if dof_n == 1:
+        K, Mm = BiLinearForm(_wf_k_scalar), BiLinearForm(_wf_m_scalar)
+    else:
+        K, Mm = BiLinearForm(_wf_k_vector), BiLinearForm(_wf_m_vector)
+    return M.WeakForms(field, K, computeC=Mm, computeM=Mm, thickness=p["thickness"])
 
 
 def gen_model_params(kind: str, rng, dim: int) -> dict:
@@ -42,7 +97,38 @@ def gen_model_params(kind: str, rng, dim: int) -> dict:
             "c": float(np.round(rng.uniform(0.5, 3.0), 3)),
             "thickness": float(np.round(rng.uniform(0.5, 2.0), 3)),
         }
+    if kind == "pf":
+        return {
+            "dim": dim,
+            "E": float(np.round(10 ** rng.uniform(1, 3), 4)),
+            "v": float(np.round(rng.uniform(0.0, 0.35), 3)),
+            "planeStress": bool(rng.integers(2)),
+            "thickness": float(np.round(rng.uniform(0.5, 2.0), 3)),
+            "split": PF_SPLITS_ISO[int(rng.integers(len(PF_SPLITS_ISO)))],
+            "regularization": ["AT1", "AT2"][int(rng.integers(2))],
+            "Gc": float(np.round(10 ** rng.uniform(-2, 0), 5)),
+            "l0": float(np.round(rng.uniform(0.1, 0.4), 3)),
+            "solver": ["History", "HistoryDamage", "BoundConstrain"][int(rng.integers(3))],
+        }
+    if kind == "neohook":
+        return {"dim": dim, "K": float(np.round(10 ** rng.uniform(1, 3), 3)), "thickness": float(np.round(rng.uniform(0.5, 2.0), 3)), "eta": 0.0}
+    if kind == "svk":
+        return {"dim": dim, "lmbda": float(np.round(10 ** rng.uniform(1, 2), 3)), "mu": float(np.round(10 ** rng.uniform(1, 2), 3)), "thickness": float(np.round(rng.uniform(0.5, 2.0), 3)), "eta": 0.0}
+    if kind == "behavior":
+        return {
+            "dim": dim, "E": float(np.round(10 ** rng.uniform(2, 3), 3)), "v": float(np.round(rng.uniform(0.1, 0.35), 3)),
+            "sigma_y": float(np.round(rng.uniform(0.5, 3.0), 3)) if rng.random() < 0.8 else None,
+            "H": float(np.round(rng.uniform(5, 100), 2)),
+            "thickness": float(np.round(rng.uniform(0.5, 2.0), 3)),
+            "planeStress": bool(rng.integers(2)) if dim == 2 else False,
+        }
+    if kind in ("wf_scalar", "wf_vector"):
+        return {"dof_n": 1 if kind == "wf_scalar" else dim, "thickness": float(np.round(rng.uniform(0.5, 2.0), 3))}
     raise KeyError(kind)
+
+
+PF_SPLITS_ISO = ["Bourdin", "Amor", "Miehe", "He", "Stress", "Zhang", "AnisotStrain", "AnisotStrain_PM", "AnisotStrain_MP",
+                 "AnisotStrain_NoCross", "AnisotStress", "AnisotStress_PM", "AnisotStress_MP", "AnisotStress_NoCross"]
 
 
 def gen_param_write(kind: str, rng) -> tuple:
@@ -63,13 +149,52 @@ def gen_param_write(kind: str, rng) -> tuple:
         if name == "c":
             return name, float(np.round(rng.uniform(0.5, 3.0), 3))
         return name, float(np.round(rng.uniform(0.5, 2.0), 3))
+    if kind == "pf":
+        name = ["Gc", "l0", "regularization", "split", "mat.E", "mat.v", "mat.thickness"][int(rng.integers(7))]
+        if name == "Gc":
+            return name, float(np.round(10 ** rng.uniform(-2, 0), 5))
+        if name == "l0":
+            return name, float(np.round(rng.uniform(0.1, 0.4), 3))
+        if name == "regularization":
+            return name, ["AT1", "AT2"][int(rng.integers(2))]
+        if name == "split":
+            return name, PF_SPLITS_ISO[int(rng.integers(len(PF_SPLITS_ISO)))]
+        if name == "mat.E":
+            return name, float(np.round(10 ** rng.uniform(1, 3), 4))
+        if name == "mat.v":
+            return name, float(np.round(rng.uniform(0.0, 0.35), 3))
+        return name, float(np.round(rng.uniform(0.5, 2.0), 3))
+    if kind == "neohook":
+        name = ["K", "thickness"][int(rng.integers(2))]
+        return (name, float(np.round(10 ** rng.uniform(1, 3), 3))) if name == "K" else (name, float(np.round(rng.uniform(0.5, 2.0), 3)))
+    if kind == "svk":
+        name = ["lmbda", "mu", "thickness"][int(rng.integers(3))]
+        if name == "thickness":
+            return name, float(np.round(rng.uniform(0.5, 2.0), 3))
+        return name, float(np.round(10 ** rng.uniform(1, 2), 3))
+    if kind == "behavior":
+        name = ["thickness", "planeStress"][int(rng.integers(2))]
+        return (name, float(np.round(rng.uniform(0.5, 2.0), 3))) if name == "thickness" else (name, bool(rng.integers(2)))
+    if kind in ("wf_scalar", "wf_vector"):
+        return "thickness", float(np.round(rng.uniform(0.5, 2.0), 3))
     raise KeyError(kind)
+
+
+def write_param(model, kind: str, params: dict, name: str, val) -> None:
+    """Applies one parameter write to the live model and to the record."""
+    if kind == "pf" and name.startswith("mat."):
+        setattr(model.material, name[4:], val)
+        params[name[4:]] = val
+    else:
+        setattr(model, name, val)
+        params[name] = val
 
 
 # ----------------------------------------------------------------------------
 # simulations
 # ----------------------------------------------------------------------------
-SIM_MODEL = {"Elastic": "iso", "Thermal": "thermal"}
+SIM_MODEL = {"Elastic": ["iso"], "Thermal": ["thermal"], "PhaseField": ["pf"], "HyperElastic": ["neohook", "svk"],
+             "InElastic": ["behavior"], "WeakForms": ["wf_scalar", "wf_vector"]}
 
 
 def make_sim(simtype: str, mesh, model, folder: str = ""):
@@ -79,6 +204,14 @@ def make_sim(simtype: str, mesh, model, folder: str = ""):
         return Simulations.Elastic(mesh, model, folder=folder)
     if simtype == "Thermal":
         return Simulations.Thermal(mesh, model, folder=folder)
+    if simtype == "PhaseField":
+        return Simulations.PhaseField(mesh, model, folder=folder)
+    if simtype == "HyperElastic":
+        return Simulations.HyperElastic(mesh, model, folder=folder)
+    if simtype == "InElastic":
+        return Simulations.InElastic(mesh, model, folder=folder)
+    if simtype == "WeakForms":
+        return Simulations.WeakForms(mesh, model, folder=folder)
     raise KeyError(simtype)
 
 
@@ -87,6 +220,10 @@ def sim_algos(simtype: str) -> list:
         return ["elliptic", "newmark", "midpoint", "hht", "hht_newmark", "euler_implicit", "euler_explicit"]
     if simtype == "Thermal":
         return ["elliptic", "parabolic"]
+    if simtype == "HyperElastic":
+        return ["elliptic", "newmark", "midpoint", "hht", "euler_implicit"]
+    if simtype == "WeakForms":
+        return ["elliptic", "parabolic", "newmark", "midpoint", "euler_implicit"]
     return ["elliptic"]
 
 
@@ -128,17 +265,21 @@ def problem_types(sim) -> list:
     return list(sim.Get_problemTypes())
 
 
+def pt_key(pt) -> str:
+    return str(getattr(pt, "value", pt))
+
+
 def get_state(sim) -> dict:
     """Kinematic state per problem type (copies)."""
     st = {}
     for pt in sim.Get_problemTypes():
-        st[str(pt)] = (sim._Get_u_n(pt), sim._Get_v_n(pt), sim._Get_a_n(pt))
+        st[pt_key(pt)] = (sim._Get_u_n(pt), sim._Get_v_n(pt), sim._Get_a_n(pt))
     return st
 
 
 def set_state(sim, st: dict) -> None:
     for pt in sim.Get_problemTypes():
-        u, v, a = st[str(pt)]
+        u, v, a = st[pt_key(pt)]
         sim._Set_solutions(pt, u.copy(), v.copy(), a.copy())
 
 
@@ -150,6 +291,14 @@ def sim_results(simtype: str, dim: int) -> list:
         return r
     if simtype == "Thermal":
         return ["thermal", "thermalDot"]
+    if simtype == "PhaseField":
+        return ["displacement", "damage", "ux", "Svm", "Stress", "Strain", "Wdef", "Psi_Crack"]
+    if simtype == "HyperElastic":
+        return ["displacement", "ux", "uy", "Svm", "Piola-Kirchhoff", "Green-Lagrange", "W", "W_e"]
+    if simtype == "InElastic":
+        return ["displacement", "ux", "Svm", "Stress", "Strain"]
+    if simtype == "WeakForms":
+        return ["u", "v", "a"]
     return []
 
 
@@ -161,6 +310,10 @@ def unknown_sets(simtype: str, dim: int) -> list:
         return [["x", "y", "z"], ["x"], ["z", "y"], ["y"]]
     if simtype == "Thermal":
         return [["t"]]
+    if simtype in ("PhaseField", "HyperElastic", "InElastic"):
+        return unknown_sets("Elastic", dim)
+    if simtype == "WeakForms":
+        return [["u"]]
     return []
 
 
